@@ -98,3 +98,42 @@ Proof.
     destruct (id =? 2) eqn:E2; [injection H as <-; assert (id = 2) by lia; subst; eexists; split; [reflexivity|exact I]|].
     destruct (id =? 3) eqn:E3; [injection H as <-; assert (id = 3) by lia; subst; eexists; split; [reflexivity|exact I]|]. discriminate.
 Qed.
+
+(* ---- typing: the glue around the model (Gen/ErrorTypes.v, regenerated from message.go and field/composite.go by a go/ast
+   translator on every run) ---- *)
+(* Message.Pack returns what wrapErrorPack returns, and wrapErrorPack returns either no error or a *PackError wrapping the
+   error of the core pack; Message.Unpack(src) returns what wrapErrorUnpack(src) returns: no error, or an *UnpackError
+   whose Err is the error of the core unpack(src), whose FieldID is the id unpack returned with it and whose RawMessage is
+   src itself; the id the core loop returns next to an error is the decimal numeral of the element it was decoding (the
+   MTI index, the bitmap index, or the loop variable - what the model's UErr (itoa i :: _) says); a composite wraps the
+   failure of its own unpack the same way, with the tag of the failing subfield as FieldID. *)
+From Coq Require Import Strings.String.
+From Iso Require Import Gen.ErrorTypes.
+Open Scope string_scope.
+Definition glue_of (n : string) : list string * (list string * list (string * string)) :=
+  match find (fun r => String.eqb (fst r) n) err_glue with Some r => snd r | None => ([], ([], [("", "missing")])) end.
+Definition g_params n := fst (glue_of n).
+Definition g_defs n := fst (snd (glue_of n)).
+Definition g_rets n := snd (snd (glue_of n)).
+Definition errs_are (allowed : list string) (rets : list (string * string)) : bool :=
+  forallb (fun r => existsb (String.eqb (snd r)) allowed) rets.
+Definition some_is (e : string) (rets : list (string * string)) : bool := existsb (fun r => String.eqb (snd r) e) rets.
+Theorem C19_typed :
+  map snd (g_rets "Message.Pack") = ["call wrapErrorPack()"] /\
+  g_defs "Message.wrapErrorPack" = ["data,err=pack()"] /\
+  errs_are ["nil"; "typed PackError {Err=err}"] (g_rets "Message.wrapErrorPack") = true /\
+  some_is "typed PackError {Err=err}" (g_rets "Message.wrapErrorPack") = true /\
+  g_params "Message.Unpack" = ["src"] /\ map snd (g_rets "Message.Unpack") = ["call wrapErrorUnpack(src)"] /\
+  g_params "Message.wrapErrorUnpack" = ["src"] /\ g_defs "Message.wrapErrorUnpack" = ["fieldID,err=unpack(src)"] /\
+  errs_are ["nil"; "typed UnpackError {Err=err; FieldID=fieldID; RawMessage=src}"] (g_rets "Message.wrapErrorUnpack") = true /\
+  some_is "typed UnpackError {Err=err; FieldID=fieldID; RawMessage=src}" (g_rets "Message.wrapErrorUnpack") = true /\
+  g_params "Message.unpack" = ["src"] /\
+  forallb (fun r => (String.eqb (snd r) "nil" && String.eqb (fst r) """""") ||
+                    (String.eqb (snd r) "errorf" && existsb (String.eqb (fst r)) ["strconv.Itoa(mtiIdx)"; "strconv.Itoa(bitmapIdx)"; "strconv.Itoa(i)"]))
+          (g_rets "Message.unpack") = true /\
+  g_params "Composite.wrapErrorUnpack" = ["src"; "isVariableLength"] /\
+  g_defs "Composite.wrapErrorUnpack" = ["offset,tagID,err=unpack(src,isVariableLength)"] /\
+  errs_are ["nil"; "typed UnpackError {Err=err; FieldID=tagID; RawMessage=src}"] (g_rets "Composite.wrapErrorUnpack") = true /\
+  some_is "typed UnpackError {Err=err; FieldID=tagID; RawMessage=src}" (g_rets "Composite.wrapErrorUnpack") = true.
+Proof. repeat split; vm_compute; reflexivity. Qed.
+Print Assumptions C19_typed.
